@@ -589,18 +589,49 @@ func (x *evx) dataSlots(r *Resolver, v ssa.Value, at ssa.Instruction, must bool)
 					}
 				}
 				found := false
-				allInstrs(sc, func(in ssa.Instruction) {
-					jc, ok := in.(*ssa.Call)
-					if !ok {
-						return
-					}
-					js := staticCallee(jc.Common())
-					if js == nil || js.String() != "encoding/json.Marshal" {
-						return
-					}
-					found = true
-					x.mapSlots(nr, "data", jc.Call.Args[0], at, must, jc)
-				})
+				// the marshalling may sit one or two helpers further down (a
+				// shared "marshal this map" helper, possibly in another
+				// package): the map is then the argument handed to it
+				var scan func(fn *ssa.Function, fr *Resolver, depth int)
+				scan = func(fn *ssa.Function, fr *Resolver, depth int) {
+					allInstrs(fn, func(in ssa.Instruction) {
+						jc, ok := in.(*ssa.Call)
+						if !ok {
+							return
+						}
+						js := staticCallee(jc.Common())
+						if js == nil {
+							return
+						}
+						if js.String() == "encoding/json.Marshal" {
+							if _, isPrm := strip(jc.Call.Args[0]).(*ssa.Parameter); isPrm && depth > 0 {
+								return // judged at the call site of this helper
+							}
+							found = true
+							x.mapSlots(fr, "data", jc.Call.Args[0], at, must, jc)
+							return
+						}
+						if InRepo(js) && js.Blocks != nil && depth < 2 {
+							// does the callee marshal one of its parameters?
+							for pi, prm := range js.Params {
+								marsh := false
+								allInstrs(js, func(in2 ssa.Instruction) {
+									if c2, ok := in2.(*ssa.Call); ok {
+										if s2 := staticCallee(c2.Common()); s2 != nil && s2.String() == "encoding/json.Marshal" && strip(c2.Call.Args[0]) == ssa.Value(prm) {
+											marsh = true
+										}
+									}
+								})
+								if marsh && pi < len(jc.Call.Args) {
+									found = true
+									x.mapSlots(fr, "data", jc.Call.Args[pi], at, must, jc)
+								}
+							}
+							scan(js, fr.Bind(js, jc), depth+1)
+						}
+					})
+				}
+				scan(sc, nr, 0)
 				if found {
 					continue
 				}
